@@ -1,5 +1,5 @@
 (* C01 — Complete mediation: only authorized sessions or skip-auth paths reach upstreams. *)
-From V Require Import Base Validators ProxyCore ProxyCore_proofs ProxyWorld ProxyWorld_proofs.
+From V Require Import Base Validators ProxyCore ProxyCore_proofs ProxyWorld ProxyWorld_proofs ProxyExamples.
 Open Scope Z_scope.
 
 (* Decision soundness, for every cookie, request, policy, time and authenticator answers:
@@ -61,3 +61,17 @@ Theorem C01_mediation_history : forall lower c pol_of evs host o sk x ep ck a,
     w_now w <= i_login i + c_L c.
 Proof. exact mediation_history. Qed.
 Print Assumptions C01_mediation_history.
+
+(* The monitor that judges the implementation's observations is this property and nothing more:
+   its boolean session clause reflects [session_ok], and it accepts the model's own prediction for
+   every time, configuration, policy, request and answers. *)
+From V Require Import CorrProxy Corr_C01 Corr_C01_proofs.
+Theorem C01_monitor_reflects : forall lower now c u host s a,
+  session_ok_b lower now c u host s a = true <-> session_ok lower now c u host s a.
+Proof. exact session_ok_reflect. Qed.
+Print Assumptions C01_monitor_reflects.
+
+Theorem C01_monitor_accepts_model : forall lower now c u r a,
+  mediation_holds lower c u (model_obs lower now c u r a) = true.
+Proof. exact monitor_accepts_model. Qed.
+Print Assumptions C01_monitor_accepts_model.
